@@ -180,13 +180,43 @@ fn cmd_core(a: &Args) -> i32 {
 /// Keys: shape=a|b|c|d, val=tp|arc, secs | execs, ops, seed, shard, intensity.
 fn cmd_race(a: &Args) -> i32 {
     tp::set_alloc_mode(AllocMode::Real);
-    sched::set_mode(Mode::Free);
+    if a.flag("nohooks") {
+        // weak-memory hunting under Miri: every extra atomic access dilutes the chance of a stale
+        // read, so the step hook is not even installed
+        arc_swap::verif::set_step_hook(None);
+        sched::set_mode(Mode::Off);
+    } else {
+        sched::set_mode(Mode::Free);
+    }
     sched::set_free_intensity(a.u64("intensity", if cfg!(miri) { 40 } else { 24 }) as u32);
     let seed = a.u64("seed", 1);
     let shard = a.u64("shard", 0);
     let secs = a.u64("secs", 0);
     let execs = a.u64("execs", 1);
     let val = a.str("val", "tp");
+    if a.str("shape", "a") == "min" {
+        // the variant is derived from the shard (= Miri seed index), so a seed range covers all of them
+        let variant = a.u64("variant", shard);
+        let fill = (variant / 9) % 2 == 1;
+        let (loads, stores) = (a.usize("ops", 4), 3);
+        let r = match (val.as_str(), fill) {
+            ("tp", false) => wl_race::minimal::<Tp<1>, DefaultStrategy>(variant, loads, stores),
+            ("tp", true) => wl_race::minimal::<Tp<1>, FillFastSlots>(variant, loads, stores),
+            (_, false) => wl_race::minimal::<Option<std::sync::Arc<Payload>>, DefaultStrategy>(variant, loads, stores),
+            (_, true) => wl_race::minimal::<Option<std::sync::Arc<Payload>>, FillFastSlots>(variant, loads, stores),
+        };
+        runner::with(|x| {
+            x.execs += 1;
+            x.ops += (loads + stores) as u64;
+        });
+        let _ = r;
+        runner::count(&format!("race.min.variant.{:02}", variant % 18), 1);
+        let live = if val == "tp" { tp::LIVE_OBJS.load(std::sync::atomic::Ordering::Relaxed) } else { tp::ARC_LIVE.load(std::sync::atomic::Ordering::Relaxed) };
+        if live != 0 {
+            runner::violation("C02", "leak", format!("{} value(s) alive after everything was dropped", live), &json!({"workload": "race/min", "variant": variant}));
+        }
+        return 0;
+    }
     let shapes: Vec<String> = a.str("shape", "a").split(',').map(|s| s.to_string()).collect();
     let ops = a.usize("ops", if cfg!(miri) { 10 } else { 5_000 });
     runner::start_watchdog(a.u64("stall_s", 600));
@@ -213,6 +243,9 @@ fn cmd_race(a: &Args) -> i32 {
             "d" => (2, 2, 2, false, true, 2),
             // fallback-only, guards handed over, 2 containers
             "e" => (2, 1, 3, true, true, 2),
+            // minimal: one reader with short-lived guards, one writer (stale-read hunting under Miri)
+            "f" => (1, 1, 0, false, false, 1),
+            "g" => (1, 1, 0, true, false, 1),
             other => panic!("unknown shape {}", other),
         };
         let scale = if cfg!(miri) { 1 } else { a.usize("scale", 2) };
